@@ -117,8 +117,13 @@ class FakeSerial:
         pass
 
 
-def port_reads(chunks: list[bytes], use_real_protocol: bool = False):
-    """Feed the real PortTransport (read-only) a sequence of read() results, one _read_ready() each."""
+SIG_ECHO = b"@@SIGNATURE-ECHO@@"
+
+
+def port_reads(chunks: list[bytes], use_real_protocol: bool = False, sending: bool = False):
+    """Feed the real PortTransport a sequence of read() results, one _read_ready() each. Read-only by default; with sending=True the
+    transport first polls the port with its signature frame (written twice here before the gateway echoes the first: a gateway slower
+    than the 50 ms poll), and SIG_ECHO in a chunk stands for a (later) echo of that signature."""
     import ramses_tx.transport as T
 
     loop = install_loop()
@@ -135,10 +140,29 @@ def port_reads(chunks: list[bytes], use_real_protocol: bool = False):
             proto = RecProtocol()
             got = proto.pkts
         ser = FakeSerial(loop)
-        tr = T.PortTransport(ser, proto, disable_sending=True, loop=loop)
-        loop.quiesce(1.0)
+        tr = T.PortTransport(ser, proto, disable_sending=not sending, loop=loop)
+        echo = b""
+        if sending:
+            n = 0
+            while len(ser.tx) < 2 and n < 400:  # two signature polls go out before the first echo comes back
+                n += 1
+                if loop._ready:
+                    loop.run_batch()
+                else:
+                    nt = loop.next_timer()
+                    if nt is None:
+                        break
+                    loop.fire_due(nt)
+            sig = ser.tx[0][1] if ser.tx else b""
+            echo = b"000 " + sig.replace(b"18:000730", b"18:006402")
+            ser.rx = [echo]
+            tr._read_ready()
+            loop.quiesce(loop.time() + 1.0)  # connection made
+        else:
+            loop.quiesce(1.0)
         raised = []
         for c in chunks:
+            c = c.replace(SIG_ECHO + b"\r\n", echo).replace(SIG_ECHO, echo.rstrip(b"\r\n"))
             ser.rx = [c]
             try:
                 tr._read_ready()
